@@ -1,6 +1,7 @@
 /-
-  Layer `Note`, invariant family F (the current forest), second part: the `disconnecting`
-  counters, the local `parent` of a `disconnecting` section, and the invariant itself.
+  Layer `Note`, invariant family F (the current forest), second part: the local `parent` of a
+  `disconnecting` section gets no new value, and the `disconnecting` counters count exactly the
+  increments not yet undone (`InvForest.step_cnt`).  The invariant itself: Proofs/NoteRelF6.lean.
 -/
 import NsyncVerif.Proofs.NoteRelF4
 
@@ -31,16 +32,17 @@ theorem sec_arg_or_earlyNew {pc : PC} {n : NoteId} {par : Option NoteId}
     left; rfl
   | _ => simp at h
 
-/-- … hence `n->disconnecting` is not zero, or `n` is on no children list. -/
-theorem InvForest.sec_protects {s : State} (hU : InvU s) (hF : InvForest s) {t : Tid} {n : NoteId}
+theorem InvL.chd_ne_nil {s : State} (hL : InvL s) (a : Tid) :
+    ∀ pos top, s.pc a ≠ .chd pos [] top := by
+  intro pos top h
+  have := (hL.claim_of h).2.2.1
+  simp at this
+
+/-- … hence `n->disconnecting` is not zero. -/
+theorem InvForest.sec_protects {s : State} (hF : InvForest s) {t : Tid} {n : NoteId}
     {par : Option NoteId} (h : (s.pc t).sec = some (n, par)) :
-    1 ≤ (s.notes n).disconnecting ∨ ∀ q, n ∉ (s.notes q).children := by
-  rcases sec_arg_or_earlyNew h with h1 | h1
-  · left
-    have hm : t ∈ s.users n := (hU.users t n).mpr h1
-    refine Nat.le_trans ?_ (hF.disc n)
-    exact List.countP_pos_iff.mpr ⟨t, hm, by simp [inSecB, h]⟩
-  · right; exact hF.early t n h1
+    1 ≤ (s.notes n).disconnecting :=
+  Nat.le_trans (cntOf_sec h) (hF.cnt_le t n)
 
 /-- While a thread is inside a `disconnecting` section on `n`, `n` gets no new parent. -/
 theorem InvForest.parent_keep {s s' : State} {e : Event} (hA : InvA s) (hS : InvS s) (hL : InvL s)
@@ -68,12 +70,11 @@ theorem InvForest.parent_keep {s s' : State} {e : Event} (hA : InvA s) (hS : Inv
   · rw [(hf n).2] at hq
     split at hq
     · next hn =>
-      -- `n` is adopted: its `disconnecting` is zero and it is on a children list
+      -- `n` is adopted: its `disconnecting` is zero
       exfalso
       subst hn
-      rcases hF.sec_protects hU h with h1 | h1
-      · omega
-      · exact h1 n0 (hF.frc a _ _ _ _ _ hpc rfl)
+      have := hF.sec_protects h
+      omega
     · exact hq
   · rw [(hf n).2] at hq
     split at hq
@@ -101,8 +102,9 @@ theorem InvForest.step_stale {s s' : State} {e : Event} (hA : InvA s) (hS : InvS
       · rw [← h2, h1]
       · rw [h1] at h2; cases h2
   by_cases ha : e.actor = some t
-  · rcases step_sec hs t ha with ⟨h1, _⟩ | ⟨m, par1, _, h2, h3, _, hf, _⟩ | ⟨m, par1, _, h2, _⟩ |
-      ⟨k, _, h1, _⟩
+  · rcases step_sec hs t ha (hL.chd_ne_nil t) with ⟨h1, _⟩ |
+      ⟨m, par1, _, h2, _, _, h3, _, hf, _⟩ | ⟨m, par1, _, h2, _⟩ | ⟨k, _, h1, _⟩ |
+      ⟨c, h1, _⟩ | ⟨c, h1, _⟩
     · exact old (h1 ▸ h)
     · rw [h2] at h
       simp only [Option.some.injEq, Prod.mk.injEq] at h
@@ -110,127 +112,161 @@ theorem InvForest.step_stale {s s' : State} {e : Event} (hA : InvA s) (hS : InvS
       left; rw [(hf m).2]; exact h3
     · rw [h2] at h; cases h
     · exact old (h1 ▸ h)
+    · exact old (h1 ▸ h)
+    · exact old (h1 ▸ h)
   · rw [step_pc_other hs t ha] at h
     exact old h
 
-theorem InvForest.step_disc {s s' : State} {e : Event} (hA : InvA s) (hU : InvU s) (hR : InvR s)
-    (hF : InvForest s) (hs : step s e = .ok s') (n : NoteId) :
-    (s'.users n).countP (fun t => inSecB (s'.pc t) n) ≤ (s'.notes n).disconnecting := by
+/-! ### The counters -/
+
+/-- A note that is counted for a thread is allocated. -/
+theorem cntOf_alloc {s : State} (hN : InvN s) (hS : InvS s) (hL : InvL s) {t : Tid} {n : NoteId}
+    (h : cntOf (s.pc t) n ≠ 0) : (s.notes n).allocated = true := by
+  have hcN := hN.claim t
+  have hcL := hL.claim t
+  cases hpc : s.pc t with
+  | nfy pos m par k =>
+    rw [hpc] at h hcN
+    cases hp : pos.inSec <;> simp [cntOf, inSecB, hp] at h
+    subst h; exact hcN.1
+  | fr pos m par c nx =>
+    rw [hpc] at h hcL
+    cases hp : pos.inSec <;> simp [cntOf, inSecB, hp] at h
+    subst h; exact hcL.1
+  | chd pos stk top =>
+    rw [hpc] at h hcN hcL
+    by_cases hn : top.n = n
+    · subst hn; exact hcN.1
+    · simp only [cntOf, inSecB, sec_chd, beq_iff_eq, hn, if_false, Nat.zero_add, inner_chd] at h
+      have hmem : n ∈ (stk.map Frame.note).dropLast := List.count_pos_iff.mp (by omega)
+      -- an inner note is strictly below the note of the enclosing activation
+      have key : ∀ (l : List Frame), ChainStk s l → ∀ x ∈ (l.map Frame.note).dropLast,
+          ∃ y, Lt s y x := by
+        intro l
+        induction l with
+        | nil => intro _ x hx; simp at hx
+        | cons f rest ih =>
+          intro hch x hx
+          cases rest with
+          | nil => simp at hx
+          | cons g gs =>
+            simp only [List.map_cons, List.dropLast_cons_cons, List.mem_cons] at hx
+            rcases hx with hx | hx
+            · subst hx; exact ⟨g.note, hch.1⟩
+            · exact ih hch.2 x (by simpa using hx)
+      obtain ⟨y, hy⟩ := key stk hcL.2.1 n hmem
+      exact hy.alloc_right hS
+  | _ => rw [hpc] at h; simp [cntOf, inSecB] at h
+
+theorem cntOf_eq {pc pc' : PC} (h1 : pc'.sec = pc.sec) (h2 : pc'.inner = pc.inner) (n : NoteId) :
+    cntOf pc' n = cntOf pc n := by
+  unfold cntOf inSecB
+  rw [h1, h2]
+
+theorem cntOf_of_sec_none {pc : PC} (h1 : pc.sec = none) (n : NoteId) :
+    cntOf pc n = pc.inner.count n := by
+  unfold cntOf inSecB; rw [h1]; simp
+
+theorem cntOf_of_sec_some {pc : PC} {m : NoteId} {par : Option NoteId}
+    (h1 : pc.sec = some (m, par)) (n : NoteId) :
+    cntOf pc n = (if n = m then 1 else 0) + pc.inner.count n := by
+  unfold cntOf inSecB; rw [h1]
+  by_cases hn : n = m
+  · subst hn; simp
+  · have : (m == n) = false := by simp [Ne.symm hn]
+    simp [hn, this]
+
+theorem cntOf_push {pc pc' : PC} {c : NoteId} (h1 : pc'.sec = pc.sec)
+    (h2 : pc'.inner = c :: pc.inner) (n : NoteId) :
+    cntOf pc' n = cntOf pc n + (if n = c then 1 else 0) := by
+  unfold cntOf inSecB; rw [h1, h2, List.count_cons]
+  by_cases hn : n = c
+  · subst hn; simp; omega
+  · have : (c == n) = false := by simp [Ne.symm hn]
+    simp [hn, this]
+
+theorem sum_map_zero (l : List Tid) : (l.map (fun _ => 0)).sum = 0 := by
+  induction l with
+  | nil => rfl
+  | cons x xs ih => simpa using ih
+
+theorem InvForest.step_cnt {s s' : State} {e : Event} (hN : InvN s) (hS : InvS s) (hL : InvL s)
+    (hF : InvForest s) (hs : step s e = .ok s') :
+    ∃ L : List Tid, L.Nodup ∧ (∀ t, s'.pc t ≠ .idle → t ∈ L) ∧
+      ∀ n, (s'.notes n).disconnecting = (L.map (fun t => cntOf (s'.pc t) n)).sum := by
+  obtain ⟨L, hnd, hmem, hsum⟩ := hF.cnt
   cases hact : e.actor with
   | none =>
-    obtain ⟨h1, h2, _, h4⟩ := step_noactor hs hact
-    rw [h1, h2, h4]; exact hF.disc n
+    obtain ⟨h1, _, _, h4⟩ := step_noactor hs hact
+    exact ⟨L, hnd, by rw [h1]; exact hmem, by rw [h1, h4]; exact hsum⟩
   | some a =>
-    have hother : ∀ t, t ≠ a → inSecB (s'.pc t) n = inSecB (s.pc t) n := by
-      intro t ht
-      rw [step_pc_other hs t (by rw [hact]; exact fun h => ht (Option.some.inj h).symm)]
-    have hidle : s.pc a = .idle → inSecB (s.pc a) n = false := by
-      intro h; rw [h]; rfl
-    -- a user list of an unpublished note is empty
-    have hunpub : s.published n = false → s.users n = [] := by
-      intro hp
-      cases hu : s.users n with
-      | nil => rfl
-      | cons t ts =>
-        have := hR.pub t n (by rw [hu]; simp)
-        rw [hp] at this; cases this
-    rcases step_sec hs a hact with ⟨h1, hd⟩ | ⟨m, par1, h1, h2, _, hu, _, hd⟩ |
-      ⟨m, par1, h1, h2, hu, hd⟩ | ⟨k, hk, h1, hu, hd, hdk⟩
-    · -- the section of the acting thread is unchanged
-      have hsame : ∀ t, inSecB (s'.pc t) n = inSecB (s.pc t) n := by
-        intro t
-        by_cases ht : t = a
-        · subst ht; simp only [inSecB, h1]
-        · exact hother t ht
-      rw [hd n]
-      have hfun : (fun t => inSecB (s'.pc t) n) = (fun t => inSecB (s.pc t) n) :=
-        funext hsame
-      rw [hfun]
-      refine Nat.le_trans ?_ (hF.disc n)
-      rcases step_arg hs a hact with ⟨_, h2, _⟩ | ⟨m, hi, _, h3, _, _⟩ | ⟨m, _, hi, h3⟩ |
-        ⟨_, _, h3⟩ | ⟨_, _, h3⟩
-      · rw [h2]; exact Nat.le_refl _
-      · rw [h3, upd_apply]
-        split
-        · next hm => subst hm; simp [List.countP_cons, hidle hi]
-        · exact Nat.le_refl _
-      · rw [h3, upd_apply]
-        split
-        · next hm => subst hm; exact List.Sublist.countP_le (List.erase_sublist ..)
-        · exact Nat.le_refl _
-      · rw [h3]; exact Nat.le_refl _
-      · rw [h3]; exact Nat.le_refl _
-    · -- `m->disconnecting++`
-      rw [hu, hd n]
-      split
-      · next hm =>
-        subst hm
-        refine Nat.le_trans (countP_le_succ (hU.nodup n) hother) ?_
-        exact Nat.succ_le_succ (hF.disc n)
-      · next hm =>
-        have hfun : (fun t => inSecB (s'.pc t) n) = (fun t => inSecB (s.pc t) n) := by
-          funext t
-          by_cases ht : t = a
-          · subst ht; simp [inSecB, h1, h2]; exact fun h => hm h.symm
-          · exact hother t ht
-        rw [hfun]; exact hF.disc n
-    · -- `m->disconnecting--`
-      rw [hu, hd n]
-      split
-      · next hm =>
-        subst hm
-        by_cases hmem : a ∈ s.users n
-        · have := countP_succ_le (p := fun t => inSecB (s.pc t) n)
-            (p' := fun t => inSecB (s'.pc t) n) (hU.nodup n) hmem (by simp [inSecB, h1])
-            (by simp [inSecB, h2]) hother
-          have := hF.disc n
-          omega
-        · -- the acting thread is creating `n`: nobody else can be inside a call on `n`
-          rcases sec_arg_or_earlyNew h1 with h3 | h3
-          · exact absurd ((hU.users a n).mpr h3) hmem
-          · rw [hunpub (hA.creating a n (earlyNew_creating h3)).2]; simp
-      · next hm =>
-        have hfun : (fun t => inSecB (s'.pc t) n) = (fun t => inSecB (s.pc t) n) := by
-          funext t
-          by_cases ht : t = a
-          · subst ht; simp [inSecB, h1, h2]; exact fun h => hm h.symm
-          · exact hother t ht
-        rw [hfun]; exact hF.disc n
-    · -- malloc
-      have hfun : (fun t => inSecB (s'.pc t) n) = (fun t => inSecB (s.pc t) n) := by
-        funext t
-        by_cases ht : t = a
-        · subst ht; simp only [inSecB, h1]
-        · exact hother t ht
-      rw [hu, hfun]
-      by_cases hnk : n = k
-      · subst hnk
-        have : s.users n = [] := by
-          apply hunpub
-          cases hp : s.published n with
-          | false => rfl
-          | true => have := hA.published n hp; rw [hk] at this; cases this
-        rw [this]; simp
-      · rw [hd n hnk]; exact hF.disc n
-
-/-! ### The invariant -/
-
-theorem step_invForest {s s' : State} {e : Event} (hr : Reachable s) (hF : InvForest s)
-    (hs : step s e = .ok s') : InvForest s' := by
-  obtain ⟨hA, _, hS, _, hL, hK⟩ := hr.inv6
-  have hU := hr.invU
-  have hR := hr.invR
-  exact
-    { c2p := (hF.step_c2p hS hL hs).1
-      nodup := (hF.step_c2p hS hL hs).2
-      early := hF.step_earlyNew hA hS hL hs
-      frc := hF.step_frc hS hL hK hs
-      chc := hF.step_chc hS hL hK hs
-      chain := hF.step_chain hS hL hK hs
-      disc := hF.step_disc hA hU hR hs
-      stale := hF.step_stale hA hS hL hU hR hs }
-
-theorem Reachable.invForest {s : State} (h : Reachable s) : InvForest s :=
-  Reachable.induction (P := InvForest) InvForest.init (fun _ _ _ hr hi hs => step_invForest hr hi hs) s h
+    have hother : ∀ t, t ≠ a → s'.pc t = s.pc t := fun t ht =>
+      step_pc_other hs t (by rw [hact]; exact fun h => ht (Option.some.inj h).symm)
+    -- a list that contains the acting thread
+    have hex : ∃ L1 : List Tid, L1.Nodup ∧ a ∈ L1 ∧ (∀ t, s.pc t ≠ .idle → t ∈ L1) ∧
+        ∀ n, (s.notes n).disconnecting = (L1.map (fun t => cntOf (s.pc t) n)).sum := by
+      by_cases ha : a ∈ L
+      · exact ⟨L, hnd, ha, hmem, hsum⟩
+      · have hidle : s.pc a = .idle := by
+          cases h : decide (s.pc a = .idle) with
+          | true => exact of_decide_eq_true h
+          | false => exact absurd (hmem a (of_decide_eq_false h)) ha
+        refine ⟨a :: L, List.nodup_cons.mpr ⟨ha, hnd⟩, List.mem_cons_self,
+          fun t ht => List.mem_cons_of_mem _ (hmem t ht), fun n => ?_⟩
+        simp only [List.map_cons, List.sum_cons, hidle, cntOf_idle, Nat.zero_add]
+        exact hsum n
+    obtain ⟨L1, hnd1, ha1, hmem1, hsum1⟩ := hex
+    refine ⟨L1, hnd1, ?_, fun n => ?_⟩
+    · intro t ht
+      by_cases hta : t = a
+      · subst hta; exact ha1
+      · rw [hother t hta] at ht; exact hmem1 t ht
+    · have hupd := sum_map_update (f := fun t => cntOf (s.pc t) n)
+        (f' := fun t => cntOf (s'.pc t) n) hnd1 ha1 (fun t ht => by simp only [hother t ht])
+      have hle := hF.cnt_le a n
+      rw [← hsum1 n] at hupd
+      rcases step_sec hs a hact (hL.chd_ne_nil a) with ⟨h1, h2, hd⟩ |
+        ⟨m, par1, h1, h2, h3, h4, _, _, _, hd⟩ | ⟨m, par1, h1, h2, h3, h4, _, _, hd⟩ |
+        ⟨k, hk, h1, h2, _, hd, hdk⟩ | ⟨c, h1, h2, _, _, _, hd⟩ | ⟨c, h1, h2, _, _, hd⟩
+      · rw [cntOf_eq h1 h2 n] at hupd; rw [hd n]; omega
+      · rw [hd n]
+        have e1 := cntOf_of_sec_none h1 n
+        have e2 := cntOf_of_sec_some h2 n
+        rw [h3] at e1; rw [h4] at e2
+        simp only [List.count_nil, Nat.add_zero] at e1 e2
+        rw [e1, e2] at hupd
+        split <;> simp_all <;> omega
+      · rw [hd n]
+        have e1 := cntOf_of_sec_some h1 n
+        have e2 := cntOf_of_sec_none h2 n
+        rw [h3] at e1; rw [h4] at e2
+        simp only [List.count_nil, Nat.add_zero] at e1 e2
+        rw [e1] at hle
+        rw [e1, e2] at hupd
+        split <;> simp_all <;> omega
+      · rw [cntOf_eq h1 h2 n] at hupd
+        by_cases hn : n = k
+        · subst hn
+          rw [hdk]
+          -- nobody is counted on a note that is not allocated
+          have hz : ∀ t ∈ L1, cntOf (s'.pc t) n = 0 := by
+            intro t _
+            have h0 : cntOf (s.pc t) n = 0 := by
+              cases h : cntOf (s.pc t) n with
+              | zero => rfl
+              | succ j =>
+                have := cntOf_alloc hN hS hL (t := t) (n := n) (by omega)
+                rw [hk] at this; cases this
+            by_cases hta : t = a
+            · subst hta; rw [cntOf_eq h1 h2 n]; exact h0
+            · rw [hother t hta]; exact h0
+          rw [sum_map_congr (f := fun _ => 0) hz, sum_map_zero]
+        · rw [hd n hn]; omega
+      · rw [hd n]
+        rw [cntOf_push h1 h2 n] at hupd
+        split <;> simp_all <;> omega
+      · rw [hd n]
+        rw [cntOf_push h1.symm h2 n] at hupd hle
+        split <;> simp_all <;> omega
 
 end Note
